@@ -69,6 +69,10 @@ def main(args):
     only = os.environ.get("SELFTEST_ONLY")
     if only:
         cases = [c for c in cases if only in c[0] or only == c[1]]
+    shard = os.environ.get("SELFTEST_SHARD")          # "i/n": every n-th case starting at i (several shards can run side by side)
+    if shard:
+        i_, n_ = (int(x) for x in shard.split("/"))
+        cases = cases[i_::n_]
     bad = 0
     for c in cases:
         name, prop, verdict, why, dt = run_case(*c)
